@@ -226,8 +226,15 @@ def p1_p5(prog, rep):
         raise cdb.AnalysisBroken("anchor missing: interrupt_requested")
     rep.check("volatile" in INT["ty"], "P3-interrupt", "interrupt_requested is volatile", INT["loc"], INT["ty"], function="interrupt_requested", construct="volatile")
 
+    # the blocking wait: the select that receives the timeout events_timer_min produced.  It returns early when a signal
+    # handler requested an interrupt, so the flag may be set when it returns, exactly like after a callback.
+    tmin = list(f.calls("events_timer_min"))
+    blocking_tv = norm(tmin[0].arg(0))[1] if len(tmin) == 1 and norm(tmin[0].arg(0))[0] == "&" else None
+
     def t3(st, e):
         if e.cls == "CallExpr" and e.callee == "doevent":
+            return "dirty"
+        if e.cls == "CallExpr" and e.callee == "events_network_select" and blocking_tv is not None and norm(e.arg(0)) == blocking_tv:
             return "dirty"
         return st
 
@@ -249,7 +256,7 @@ def p1_p5(prog, rep):
     def v3(e, st):
         if e.cls == "CallExpr" and e.callee == "doevent":
             rep.check(st in ("fresh", "checked"), "P3-interrupt", "doevent() at line %d follows an interrupt test" % e.line, e.where,
-                      "after a callback ran, the next dispatch must be preceded by a test of interrupt_requested", function=f.name, construct="interrupt-test")
+                      "after a callback ran or the blocking wait returned, the next dispatch must be preceded by a test of interrupt_requested", function=f.name, construct="interrupt-test")
     s3.visit(v3)
     # the set edge of each test leaves without dispatching
     for b in f.blocks.values():
@@ -488,18 +495,29 @@ def run(tier):
         "discipline of the immediate queues, and that a fetched event is dispatched before anything else is fetched or returned. "
         "P7: the blocking time is 0 exactly when the earliest deadline has passed (nine orderings evaluated), otherwise deadline - now with "
         "borrow, converted to milliseconds rounded up, and is what the blocking poll receives. "
-        "Not decided: timer deadline order (C13), wall-clock blocking behaviour of poll(2).",
+        "Timers in deadline order: the necessary structure of the timer heap (comparators on nine orderings, key stored before the heap "
+        "is told, sift directions and index arithmetic; rules shared with C04/C13). "
+        "Not decided: that the heap order holds over every operation history, wall-clock blocking behaviour of poll(2).",
         trusted=["TAILQ macros", "poll(2)"])
     configs = [cdb.HOST]
     if tier == "thorough":
         configs.append(cdb.Config("host-ndebug", extra=["-DNDEBUG"]))
     for cfg in configs:
-        prog = ir.Program(["events/events.c", "events/events_immediate.c", "events/events_timer.c", "events/events_network.c"], cfg)
+        prog = ir.Program(["events/events.c", "events/events_immediate.c", "events/events_timer.c", "events/events_network.c",
+                           "datastruct/timerqueue.c", "datastruct/ptrheap.c"], cfg)
         rep.add_stats(prog)
         p1_p5(prog, rep)
         p4(prog, rep)
         p7(prog, rep)
+        # "timers in deadline order": the structural conditions of the timer heap's order -- lexicographic comparators, deadlines stored
+        # before the heap is told, release only on the not-later edge (C04's O6), index arithmetic and sift directions of the heap (C13's H4)
+        from . import c04, c13
+        c04.o6(prog, rep)
+        c13.h4(prog, rep)
+        c13.h5(prog, rep)
     n = len(configs)
+    rep.require_min("O6-notearly", 6 * n)
+    rep.require_min("H4-sift", 5 * n)
     rep.require_min("P1-priority", 4 * n)
     rep.require_min("P2-status", 8 * n)
     rep.require_min("P4-queue", 8 * n)
